@@ -106,6 +106,7 @@ def run(ctx):
     # R1
     ctx.mc("MC_Calendar", "MC_Calendar.cfg", timeout=600)
     ctx.mc("MC_Denote", "MC_Denote_C03_q.cfg" if ctx.quick else "MC_Denote_C03_t.cfg", timeout=3000)
+    common.random_rows_stage(ctx, "C03")
     # binding of the calendar and of the productions, every day of the 28-year cycle
     common.calendar_binding(ctx)
     times = [(12, 43)] if ctx.quick else [(0, 0), (12, 43), (23, 59)]
